@@ -163,7 +163,7 @@ def _honest(what, fn):
 class World:
     """Concrete values for the abstract names of one scenario (fresh random keys per scenario)."""
 
-    MLENS = [0, 1, 32, 55, 56, 63, 64, 65, 200, 2100, 65500, 66000]     # beyond the 16-bit lengths of expand_message_xmd too
+    MLENS = [0, 1, 32, 55, 56, 63, 64, 65, 200, 2100, 65500, 66000, 1000003]     # beyond the 16-bit lengths of expand_message_xmd too
 
     def __init__(self, seed, nonempty_m1=False, empty_m1=False):
         ob = _W["ob"]
